@@ -251,9 +251,10 @@ fn synth(cmd: &str, args: &[String]) -> i32 {
 		match name {
 			// every prefix of every file is too much for one run
 			"c07" => thin(&mut cases, 1),
-			// ... and three archives per file with thousands of prefixes each even more so: 1/14 of the candidates
-			// (stride 7 is coprime to the group sizes, so the gecko / end / metadata combinations keep rotating)
-			"c07s" => thin(&mut cases, 7),
+			// ... and three archives per file with thousands of prefixes each even more so: 1/22 of the candidates, about
+			// 2 minutes on 16 cores (stride 7: 589 cases, 3.4 minutes).  The stride is coprime to the group sizes, so the
+			// gecko / end / metadata combinations keep rotating.
+			"c07s" => thin(&mut cases, 11),
 			_ => {}
 		}
 		oracles::search(name, &cases, check, hang, t0)
@@ -284,6 +285,11 @@ fn main() {
 		"c15-search" => c15_search(),
 		"c17" if !args.get(1).map_or(false, |a| is_case_id(a)) => c17(&args[1..]),
 		"c06" if !args.get(1).map_or(false, |a| is_case_id(a)) => c06(&args[1..]),
+		"c07s-scan" => match args.get(1).map(|a| gen::Spec::parse(a)) {
+			// c07s-scan <case-id> <none|lz4|zstd>: every prefix of the archive, classified (diagnostic)
+			Some(Ok(spec)) => slpp_oracles::c07s_scan(&spec, args.get(2).map_or("none", |s| s.as_str())),
+			_ => 3,
+		},
 		"cases" => {
 			// list the candidate set (case-ids), for inspection
 			for c in gen::candidates() {
